@@ -302,6 +302,13 @@ fn shuffle_game(tr: &mut GTracer, start: Board, cycle: &[&str], rounds: usize) {
     }
 }
 
+/// shuffles after a declined en passant: the double step is played once (so that the game's generator has
+/// answered for the position WITH the right), then the kings shuffle and the same placement recurs without it
+pub const EP_DECLINED: [(&str, &str, &str); 2] = [
+    ("7k/3p4/8/4P3/8/8/8/4K3 b - -", "d7d5", "e1e2 h8g8 e2e1 g8h8"),
+    ("4k3/8/8/8/3p4/8/4P3/7K w - -", "e2e4", "e8e7 h1g1 e7e8 g1h1"),
+];
+
 pub const SHUFFLES: [(&str, &str); 4] = [
     ("rnbqkbnr/pppppppp/8/8/8/8/PPPPPPPP/RNBQKBNR w KQkq -", "g1f3 g8f6 f3g1 f6g8"),
     ("4k3/8/8/8/8/8/8/4K2R w - -", "h1g1 e8d8 g1h1 d8e8"),
@@ -497,11 +504,38 @@ pub fn main(args: &[String]) {
             // "after any legal history": long capture-free shuffles (the half-move clock passes the draw
             // threshold, positions recur three times and more) with the engine asked at every ply
             let rounds = arg_u64(args, "--rounds", 30) as usize;
-            for (gi, (fen, cyc)) in SHUFFLES.iter().enumerate() {
+            let all: Vec<(&str, &str, &str)> = SHUFFLES.iter().map(|(f, c)| (*f, "", *c)).chain(EP_DECLINED.iter().cloned()).collect();
+            for (gi, (fen, prefix, cyc)) in all.iter().enumerate() {
                 let c: Vec<&str> = cyc.split_whitespace().collect();
-                let mut game = Game::from_board(crate::trace::parse_fen(fen).setup(), 1 + (gi % 2) as u8);
+                let mut game = Game::from_board(crate::trace::parse_fen(fen).setup(), 1 + (gi % 3) as u8);
                 tr.reset(&game);
                 let mut ply = 0;
+                let mut ok = true;
+                for u in prefix.split_whitespace() {
+                    // the engine answers for the position before and after the double step
+                    if !tr.engine_move(&mut game, false) {
+                        ok = false;
+                        break;
+                    }
+                    let ch: Vec<char> = u.chars().collect();
+                    let f = (ch[0] as u8 - b'a') + (ch[1] as u8 - b'1') * 8 + 1;
+                    let t = (ch[2] as u8 - b'a') + (ch[3] as u8 - b'1') * 8 + 1;
+                    match tr.coords(&mut game, &[(f, t)]) {
+                        Ok(Some(_)) => tr.toggle(&mut game),
+                        _ => {
+                            ok = false;
+                            break;
+                        }
+                    }
+                    if !tr.engine_move(&mut game, false) {
+                        ok = false;
+                        break;
+                    }
+                }
+                if !ok {
+                    continue;
+                }
+                let rounds = if prefix.is_empty() { rounds } else { rounds.min(6) };
                 'g: for _ in 0..rounds {
                     for u in &c {
                         let ch: Vec<char> = u.chars().collect();
